@@ -346,6 +346,10 @@ static FATAL: std::sync::Mutex<Option<(controller::Verdict, controller::RunRecor
 
 /// Called from the controller's fatal handler (a deadlock / step bound inside a scheduler run): the
 /// stuck threads cannot be recovered, so report what was gathered so far and leave.
+pub fn set_fatal(v: controller::Verdict, rec: controller::RunRecord) {
+    *FATAL.lock().unwrap() = Some((v, rec));
+}
+
 pub fn fatal_exit() -> ! {
     let mut res = PARTIAL.lock().unwrap().take().unwrap_or_else(|| json!({}));
     if let Some((v, rec)) = FATAL.lock().unwrap().take() {
@@ -413,7 +417,12 @@ fn cmd_sched(a: &Value) -> Value {
         let faulty_ref = s.fault.as_ref().is_some_and(|(_, m)| m == "persistent");
         if s.fault.as_ref().is_some_and(|(_, m)| m == "panic") {
             // keep the injected panics of the reference and of the workers out of the log
-            std::panic::set_hook(Box::new(|_| {}));
+            std::panic::set_hook(Box::new(|info| {
+                let msg = info.payload().downcast_ref::<String>().cloned().or_else(|| info.payload().downcast_ref::<&str>().map(|s| (*s).to_owned())).unwrap_or_default();
+                if !msg.contains("injected panic") {
+                    eprintln!("panic: {msg} at {:?}", info.location());
+                }
+            }));
         }
         let mut reference = sched::reference(&s, &uni, faulty_ref);
         let mut distinct = std::collections::HashSet::new();
@@ -470,7 +479,12 @@ fn cmd_sched(a: &Value) -> Value {
                 }
                 policy_monitors(&s, &o, policy_other.as_ref().unwrap())
             } else {
-                monitors(&s, &reference, &o)
+                let mut f = monitors(&s, &reference, &o);
+                if sc["expect"].is_object() {
+                    // the rule model must also agree with stock revm where the policy is inert
+                    f.extend(sched::expect_monitors(&s, &o));
+                }
+                f
             };
             if a["policy"].as_str() == Some("guide") {
                 guided.push(json!({"followed": o.record.guide_pos, "of": a["guide"].as_array().map_or(0, |g| g.len()),
@@ -485,6 +499,7 @@ fn cmd_sched(a: &Value) -> Value {
                     (loc_name(&s, l), json!(if parts[0] == "S" && uni.contains(&r) { loc_name(&s, &r) } else { "none".to_owned() }))
                 }).collect::<serde_json::Map<_, _>>(),
                 "ref": reference.states.iter().map(|m| m.iter().map(|(l, v)| (loc_name(&s, l), json!(v))).collect::<serde_json::Map<_, _>>()).collect::<Vec<_>>(),
+                "nonce_check": !cfg_env_of(&s).disable_nonce_check,
                 "refkind": reference.steps.iter().map(|st| match &st.outcome { Some(TxExecutionOutcome::Executed(_)) => "executed", _ => "skipped" }).collect::<Vec<_>>(),
                 "fatal_at": reference.error.as_ref().map_or(s.n as i64, |(k, _)| *k as i64),
                 "result": match &o.result { Ok(()) => json!("ok"), Err((k, e)) => json!({"err": k, "text": e}) },
@@ -501,8 +516,9 @@ fn cmd_sched(a: &Value) -> Value {
                 }
             }
         }
+        let ref_kinds: Vec<&str> = reference.outcomes.iter().map(sched::outcome_kind).collect();
         per.push(json!({"scenario": s.name, "runs": runs, "distinct_schedules": distinct.len(), "steps": steps,
-            "sample": sample, "guided": guided}));
+            "sample": sample, "guided": guided, "ref_kinds": ref_kinds, "ref_error": reference.error.as_ref().map(|e| e.0)}));
     }
     json!({"scenarios": per, "violations": violations, "trace_runs": out.runs, "trace_events": out.events})
 }
@@ -708,6 +724,7 @@ fn main() {
         "entry" => cmd_entry(&a),
         "matrix" => cmd_matrix(&a),
         "statehist" => statehist::cmd(&a),
+        "lifecycle" => statehist::cmd_lifecycle(&a),
         other => {
             eprintln!("unknown command {other}");
             std::process::exit(2);
